@@ -410,6 +410,30 @@ func (eng *Engine) buildIntercepts() {
 		ex.unsupported("math.Pow with symbolic arguments")
 		return nil
 	}
+	// math.Ldexp(frac, exp): exact for concrete arguments; for frac = 1 and a symbolic exponent outside [0,64) a
+	// summary: exp >= 64 gives a value >= 2^64 (or +Inf), exp < -1074 gives 0, -1074 <= exp < 0 a value in (0,1)
+	ic["math.Ldexp"] = func(ex *Exec, caller *frame, fn *ssa.Function, args []Value) Value {
+		x, e := args[0].(*Term), args[1].(*Term)
+		if x.IsConst() && e.IsConst() {
+			return ex.tt.FP(math.Ldexp(math.Float64frombits(x.val), int(e.sval())))
+		}
+		if !(x.IsConst() && math.Float64frombits(x.val) == 1.0) {
+			ex.unsupported("math.Ldexp with symbolic fraction")
+		}
+		mid := ex.tt.BAnd(ex.tt.Cmp(OSle, ex.tt.BV(e.w, 0), e), ex.tt.Cmp(OSlt, e, ex.tt.BV(e.w, 64)))
+		if r, _ := ex.sess.CheckZ3(mid, false); r != "unsat" {
+			ex.unsupported("math.Ldexp(1, e) with symbolic e that may be in [0,64) (case-split in the harness)")
+		}
+		ex.powSeq++
+		p := ex.tt.Var(fmt.Sprintf("ldexp#%d", ex.powSeq), KFP, 0)
+		big := ex.tt.Cmp(OSle, ex.tt.BV(e.w, 64), e)
+		tiny := ex.tt.Cmp(OSlt, e, ex.tt.BV(e.w, ^uint64(1073)))
+		ex.addPC(ex.tt.BOr(ex.tt.BNot(big), ex.tt.FCmp(OFLe, ex.tt.FP(18446744073709551616.0), p)))
+		ex.addPC(ex.tt.BOr(ex.tt.BNot(tiny), ex.tt.FCmp(OFEq, p, ex.tt.FP(0))))
+		neg := ex.tt.BAnd(ex.tt.Cmp(OSlt, e, ex.tt.BV(e.w, 0)), ex.tt.BNot(tiny))
+		ex.addPC(ex.tt.BOr(ex.tt.BNot(neg), ex.tt.BAnd(ex.tt.FCmp(OFLt, ex.tt.FP(0), p), ex.tt.FCmp(OFLt, p, ex.tt.FP(1)))))
+		return p
+	}
 	ic["math.IsInf"] = func(ex *Exec, caller *frame, fn *ssa.Function, args []Value) Value {
 		sign := args[1].(*Term)
 		f := args[0].(*Term)
